@@ -159,14 +159,87 @@ func (c *Ctx) errorExitStatus(f *ssa.Function, region map[*ssa.BasicBlock]bool) 
 				continue
 			}
 			for _, s := range b.Succs {
-				if !region[s] {
-					ok = false
-					why = fmt.Sprintf("control continues at block %d after the error branch", s.Index)
+				if region[s] {
+					continue
 				}
+				// a shared exit (`return result, resultErr`, the results
+				// set in the branches): this edge returns what the phis
+				// take from it
+				if ret, vals, isJoin := joinReturnEdge(f, b, s); isJoin {
+					sig := f.Signature.Results()
+					for i := 0; i < sig.Len() && i < len(vals); i++ {
+						if !isErrorType(sig.At(i).Type()) {
+							continue
+						}
+						for _, v := range c.expandResult(vals[i]) {
+							if isNilConst(v) {
+								ok = false
+								why = "returns a nil error"
+								nilReturn = ret
+							}
+						}
+					}
+					continue
+				}
+				ok = false
+				why = fmt.Sprintf("control continues at block %d after the error branch", s.Index)
 			}
 		}
 	}
 	return
+}
+
+// joinReturnEdge: s consists of phis and a return only; the values returned
+// when s is entered from b.
+func joinReturnEdge(f *ssa.Function, b, s *ssa.BasicBlock) (*ssa.Return, []ssa.Value, bool) {
+	if len(s.Preds) < 2 || len(s.Instrs) == 0 {
+		return nil, nil, false
+	}
+	ret, ok := s.Instrs[len(s.Instrs)-1].(*ssa.Return)
+	if !ok {
+		return nil, nil, false
+	}
+	for _, in := range s.Instrs[:len(s.Instrs)-1] {
+		switch in.(type) {
+		case *ssa.Phi, *ssa.DebugRef:
+		default:
+			return nil, nil, false
+		}
+	}
+	idx, found := predIndex(s, b)
+	if found != 1 {
+		return nil, nil, false
+	}
+	vals := make([]ssa.Value, len(ret.Results))
+	for i, r := range ret.Results {
+		vals[i] = r
+		if phi, isPhi := r.(*ssa.Phi); isPhi && phi.Block() == s {
+			vals[i] = phi.Edges[idx]
+		}
+	}
+	return ret, vals, true
+}
+
+// expandResult: the values a returned value can stand for (phis expanded).
+func (c *Ctx) expandResult(v ssa.Value) []ssa.Value {
+	var out []ssa.Value
+	seen := map[ssa.Value]bool{}
+	var walk func(v ssa.Value, depth int)
+	walk = func(v ssa.Value, depth int) {
+		if seen[v] || depth > 6 {
+			return
+		}
+		seen[v] = true
+		if phi, ok := v.(*ssa.Phi); ok {
+			for _, e := range phi.Edges {
+				walk(e, depth+1)
+			}
+			return
+		}
+		out = append(out, v)
+	}
+	walk(v, 0)
+	return out
 }
 
 // classify decides how producer p's value is handled.
@@ -246,6 +319,30 @@ func (c *Ctx) classifyErr(p *errProducer) errVerdict {
 					handled = append(handled, "stored")
 				}
 			case *ssa.Phi:
+				// an edge on which the value is known to be nil carries nil,
+				// not this error (`err` reused as a named result: after
+				// `if err != nil { return }` the variable flows on to the
+				// next iteration holding nil)
+				carries := false
+				for i, e := range x.Edges {
+					if e != cur || i >= len(x.Block().Preds) {
+						continue
+					}
+					pred := x.Block().Preds[i]
+					knownNil := false
+					for _, fct := range append(factsAt(pred), factsOnEdge(pred, x.Block())...) {
+						cond, truth := normCond(fct.Cond, fct.Truth)
+						if m, isNil := errNilFact(cond, truth, cur); m && isNil {
+							knownNil = true
+						}
+					}
+					if !knownNil {
+						carries = true
+					}
+				}
+				if !carries {
+					continue
+				}
 				add(x)
 				// `err = step()` inside a loop, looked at only after the loop: the next
 				// iteration's result replaces this one unless the variable is known to be
@@ -646,7 +743,7 @@ func (c *Ctx) isNonScanningWrite(p *errProducer) bool {
 	}
 	return guardedBy(p.Instr.Block(), func(cond ssa.Value, truth bool) bool {
 		u, ok := cond.(*ssa.UnOp)
-		return ok && truth && u.Op == token.MUL && u.X == versionCell
+		return ok && truth && u.Op == token.MUL && c.sameAddr(u.X, versionCell)
 	})
 }
 
@@ -658,24 +755,57 @@ func (c *Ctx) sentinelNilReturn(p *errProducer) (string, bool) {
 	okAll := true
 	reason := ""
 	found := false
+	type retInstance struct {
+		nilErr bool
+		facts  []condFact
+	}
+	var instances []retInstance
 	for _, ret := range returnsOf(f) {
-		// is this return inside a non-nil region of p.Val and returns nil error?
-		isNil := false
+		s := ret.Block()
+		join := false
+		if len(s.Preds) >= 2 {
+			if _, _, isJoin := joinReturnEdge(f, s.Preds[0], s); isJoin {
+				join = true
+			}
+		}
+		if join {
+			// one instance per way into the shared exit
+			for _, pb := range s.Preds {
+				_, vals, _ := joinReturnEdge(f, pb, s)
+				inst := retInstance{facts: append(factsAt(pb), factsOnEdge(pb, s)...)}
+				for i := range vals {
+					if i < f.Signature.Results().Len() && isErrorType(f.Signature.Results().At(i).Type()) {
+						for _, v := range c.expandResult(vals[i]) {
+							if isNilConst(v) {
+								inst.nilErr = true
+							}
+						}
+					}
+				}
+				instances = append(instances, inst)
+			}
+			continue
+		}
+		inst := retInstance{facts: factsAt(s)}
 		for i := range ret.Results {
 			if isErrorType(f.Signature.Results().At(i).Type()) {
 				for _, v := range c.resultValues(ret, i) {
 					if isNilConst(v) {
-						isNil = true
+						inst.nilErr = true
 					}
 				}
 			}
 		}
-		if !isNil {
+		instances = append(instances, inst)
+	}
+	for _, inst := range instances {
+		// is this return inside a non-nil region of p.Val and returns nil error?
+		if !inst.nilErr {
 			continue
 		}
 		inNonNil := false
 		var why string
-		for _, fact := range factsAt(ret.Block()) {
+		for _, fact := range inst.facts {
 			cond, truth := normCond(fact.Cond, fact.Truth)
 			if m, isNilErr := errNilFact(cond, truth, p.Val); m && !isNilErr {
 				inNonNil = true
@@ -709,7 +839,7 @@ func (c *Ctx) sentinelNilReturn(p *errProducer) (string, bool) {
 				}
 			}
 			// *exec.ExitError with ExitCode()==1 from git config --get
-			if cmp, ok := isCmp(cond, token.EQL); ok && truth {
+			if cmp, ok := isCmp(cond, token.EQL, token.NEQ); ok && (cmp.Op == token.EQL) == truth {
 				if n, ok := constInt(cmp.Y); ok && n == 1 {
 					if call, ok := cmp.X.(*ssa.Call); ok && strings.HasSuffix(calleeQ(&call.Call), ".ExitCode") {
 						if c.isConfigGet(p) {
